@@ -279,6 +279,7 @@ func (e *Engine) newUnit(p *packages.Package, ct *Contract) *Unit {
 		closures: map[types.Object]*ast.FuncLit{}, litKeys: map[*ast.FuncLit]string{},
 		ghostDone: map[string]bool{}, trustedUsed: map[string]bool{}, usedContracts: map[string]bool{},
 		tables: map[string]Val{}, elemAlias: map[types.Object]elemAlias{},
+		onPos: map[*CallAssert][]token.Pos{}, matchedCA: map[*CallAssert]bool{},
 	}
 	return u
 }
@@ -482,6 +483,16 @@ func (e *Engine) verifyFunc1(p *packages.Package, ct *Contract) (res *UnitResult
 	}
 	for i, ex := range exits {
 		u.checkExit(i+1, ex, node.Pos())
+	}
+	// an `at call f on "text"` clause that found no call: the contract no longer fits
+	for _, ca := range ct.CallAsserts {
+		if ca.On != "" && !u.matchedCA[ca] {
+			lbl := ""
+			if len(ca.Clauses) > 0 {
+				lbl = ca.Clauses[0].Label
+			}
+			u.unsupported(node.Pos(), "at call %s on %q assert [%s]: the function has no such call any more", ca.Callee, ca.On, lbl)
+		}
 	}
 	return
 }
